@@ -47,10 +47,31 @@ func runC13(c *Ctx) {
 	// watchdog = go target in handshake
 	var wd *ssa.Function
 	var goInstr *ssa.Go
+	// the instruction of hs at which the watchdog is started: the go itself, or the call of a helper that holds it
+	var startAt ssa.Instruction
 	for _, ci := range flow.CallInstrs(hs) {
 		if g, ok := ci.(*ssa.Go); ok {
 			if t := flow.StaticCallee(g); t != nil {
-				wd, goInstr = t, g
+				wd, goInstr, startAt = t, g, g
+			}
+		}
+	}
+	if wd == nil {
+		for _, ci := range flow.CallInstrs(hs) {
+			call, ok := ci.(*ssa.Call)
+			if !ok {
+				continue
+			}
+			hlp := flow.StaticCallee(call)
+			if hlp == nil || hlp.Blocks == nil || !c.P.IsLibrary(hlp) || pkgOf(hlp).Path() != pkgSM {
+				continue
+			}
+			for _, cj := range flow.CallInstrs(hlp) {
+				if g, ok := cj.(*ssa.Go); ok {
+					if t := flow.StaticCallee(g); t != nil && t.Blocks != nil && len(flow.Loops(t)) > 0 {
+						wd, goInstr, startAt = t, g, call
+					}
+				}
 			}
 		}
 	}
@@ -76,7 +97,7 @@ func runC13(c *Ctx) {
 				if timerChan(rl.sel.States[k].Chan, "RetransmitInterval") {
 					continue
 				}
-				if rl.caseDominates(k, goInstr.Block()) {
+				if rl.caseDominates(k, startAt.Block()) {
 					onSuccess = true
 				}
 			}
@@ -575,7 +596,20 @@ func (c *Ctx) c13DWR() {
 			if !isDWRKey {
 				continue
 			}
-			// handler value derives from the constructor of h
+			// handler value derives from the constructor of h (h itself a closure, or a function the registered
+			// closure hands the message to)
+			isH := func(fn *ssa.Function) bool {
+				fn = flow.Unwrap(fn)
+				if fn == h {
+					return true
+				}
+				for _, cj := range flow.CallInstrs(fn) {
+					if _, isGo := cj.(*ssa.Go); !isGo && flow.StaticCallee(cj) == h {
+						return true
+					}
+				}
+				return false
+			}
 			v := args[2]
 			for i := 0; i < 6; i++ {
 				switch x := v.(type) {
@@ -586,12 +620,12 @@ func (c *Ctx) c13DWR() {
 					v = x.X
 					continue
 				case *ssa.MakeClosure:
-					if flow.Unwrap(x.Fn.(*ssa.Function)) == h {
+					if isH(x.Fn.(*ssa.Function)) {
 						found = true
 					}
 				case *ssa.Call:
 					if g := flow.StaticCallee(x); g != nil {
-						if g == h.Parent() {
+						if h.Parent() != nil && g == h.Parent() {
 							found = true
 						}
 						for _, rv := range flow.ReturnValues(g, 0) {
@@ -602,7 +636,7 @@ func (c *Ctx) c13DWR() {
 							if ct, ok := rv.(*ssa.ChangeType); ok {
 								rv = ct.X
 							}
-							if mc, ok := rv.(*ssa.MakeClosure); ok && flow.Unwrap(mc.Fn.(*ssa.Function)) == h {
+							if mc, ok := rv.(*ssa.MakeClosure); ok && isH(mc.Fn.(*ssa.Function)) {
 								found = true
 							}
 						}
